@@ -142,7 +142,7 @@ func c05Gen(t *rapid.T) (*c05Case, string) {
 				N:       rapid.SampledFrom([]int{2, 1, 3, 2, 1, 2, 0, 3, 4}).Draw(t, "wantN"),
 			})
 		}
-		density := rapid.SampledFrom([]int{2, 1, 3, 0, 4}).Draw(t, "density") // copies on ≈ density/4 of the devices
+		density := rapid.SampledFrom([]int{2, 1, 3, 2, 4, 3, 0}).Draw(t, "density") // copies on ≈ density/4 of the devices
 		b.Copies = map[string]int64{}
 		for di, dev := range devs {
 			if rapid.IntRange(0, 3).Draw(t, "hasCopy") >= density {
